@@ -4,6 +4,7 @@ import (
 	"fmt"
 	"math/rand"
 	"os"
+	"strconv"
 	"strings"
 	"sync"
 	"sync/atomic"
@@ -400,6 +401,10 @@ func c02(r *ev.Run) {
 	case "withheld":
 		c02ReplyWithheld(r)
 		return
+	case "late":
+		c02LateRedirection(r)
+		c02LateSenders(r)
+		return
 	}
 	e := &c02Env{r: r}
 	if err := e.start(false); err != nil {
@@ -492,6 +497,10 @@ func c02(r *ev.Run) {
 	r.Require("host_removed_while_redirecting", 1)
 	c02StopUnderTraffic(r)
 	c02ReplyWithheld(r)
+	c02LateRedirection(r)
+	r.Require("redirections_queued_while_the_loop_was_held", 3)
+	c02LateSenders(r)
+	r.Require("late_sender_rounds", 3)
 	c02MultiKeyStorm(r)
 	runAPIPart(r, "children", false, nil, 10*time.Minute)
 	c02Stress(r)
@@ -1371,4 +1380,240 @@ func c02ReplyWithheld(r *ev.Run) {
 		r.Case(fmt.Sprintf("script/reply-withheld/fast=%d", nfast))
 	}
 	r.Require("ready_replies_delivered_before_the_slow_one", 1)
+}
+
+// c02LateRedirection: a redirection that arrives while the redirect loop is between "nothing queued" and its wait for the next
+// signal must still be followed: the loop is held at exactly that place (pause point at its top), a request is redirected (ASK: the
+// slot is migrating and the key is absent), the loop is let go - the request must be answered although no further redirection
+// arrives to wake the loop up. Also with short sleeps at that place under a sequential client.
+func c02LateRedirection(r *ev.Run) {
+	s, err := startSUT(r, false, 600000, 20)
+	if err != nil {
+		r.Internal("start sut: %v", err)
+		return
+	}
+	defer s.Close()
+	cl, err := fakecluster.New(2, 0)
+	if err != nil {
+		r.Internal("fakecluster: %v", err)
+		return
+	}
+	defer cl.Close()
+	cl.AssignContiguous()
+	cl.LogArgs = false
+	var asks int64
+	cl.OnEvent = func(e *fakecluster.Event) {
+		if e.Outcome == fakecluster.Ask {
+			atomic.AddInt64(&asks, 1)
+		}
+	}
+	svc, err := startRedisSvc(s, cl, cl.Addrs(), RedisOpts{})
+	if err != nil || !svc.WaitRouting(1, 10*time.Second) {
+		r.Internal("service did not start: %v", err)
+		return
+	}
+	defer s.StopProc(svc.Name, 20*time.Second)
+	const point = "redis.upstream.redirect.before_wait"
+	keys := keysFor(cl, cl.Nodes[0], 400, "late")
+	slotOf := func(k string) int { return fakecluster.Slot([]byte(k)) }
+	migrate := func(k string, on bool) {
+		cl.Lock()
+		if on {
+			cl.Nodes[0].SetMigratingLocked(slotOf(k), cl.Nodes[1])
+			cl.Nodes[1].SetImportingLocked(slotOf(k), cl.Nodes[0])
+		} else {
+			cl.Nodes[0].SetMigratingLocked(slotOf(k), nil)
+			cl.Nodes[1].SetImportingLocked(slotOf(k), nil)
+		}
+		cl.Unlock()
+	}
+	conn, err := svc.Dial()
+	if err != nil {
+		r.Internal("dial: %v", err)
+		return
+	}
+	defer conn.Close()
+	reps := 10
+	if r.Tier == "thorough" {
+		reps = 60
+	}
+	lost := func(how string, k string, w map[string]interface{}) {
+		dump, _ := s.Goroutines()
+		w["key"] = k
+		w["how"] = how
+		w["redirect_loop"] = extractStacks(dump, "loopRedirect", 1)
+		r.Violation("C02:lost:redirection-arrived-while-the-loop-was-not-waiting", "an ASK-redirected request was never answered: its redirection was queued while the redirect loop was between 'nothing queued' and its wait, and nothing woke the loop up afterwards", w)
+	}
+	// (a) forced ordering
+	s.HookArm(point, sutc.HookAction{Mode: "park"})
+	ki := 0
+	for rep := 0; rep < reps; rep++ {
+		k1, k2 := keys[ki], keys[ki+1]
+		ki += 2
+		migrate(k1, true)
+		migrate(k2, true)
+		// the loop waits for a signal (first round) or is held at its top (it went round for the previous request): in the first
+		// case a redirected request takes it once round
+		if !s.WaitParked(point, 1, 50*time.Millisecond) {
+			if _, err := conn.DoS(3*time.Second, "GET", k1); err != nil {
+				lost("first request", k1, map[string]interface{}{"round": rep})
+				break
+			}
+		}
+		if !s.WaitParked(point, 1, 2*time.Second) {
+			r.Inconclusive("late-redirection:loop-not-held")
+			continue
+		}
+		before := atomic.LoadInt64(&asks)
+		conn.C.Write(resp.CmdS("GET", k2))
+		for i := 0; i < 400 && atomic.LoadInt64(&asks) == before; i++ {
+			time.Sleep(5 * time.Millisecond)
+		}
+		if atomic.LoadInt64(&asks) == before {
+			r.Inconclusive("late-redirection:no-ask")
+			conn.Read(3 * time.Second)
+			continue
+		}
+		time.Sleep(30 * time.Millisecond) // the backend reader has queued the redirection and signalled
+		s.HookReleaseParked(point)
+		v, err := conn.Read(3 * time.Second)
+		if err != nil {
+			lost("forced ordering: loop held at its top, request redirected, loop released", k2, map[string]interface{}{"round": rep})
+			break
+		}
+		_ = v
+		r.Count("redirections_queued_while_the_loop_was_held", 1)
+		r.Case("script/late-redirection/forced")
+		migrate(k1, false)
+		migrate(k2, false)
+	}
+	s.HookRelease(point)
+	// (b) short sleeps at the same place, sequential client: the next redirection arrives right after the previous one was followed
+	if r.Violations() == 0 {
+		s.HookArm(point, sutc.HookAction{Mode: "sleep", SleepUs: 20000})
+		n := 60
+		if r.Tier == "thorough" {
+			n = 300
+		}
+		for i := 0; i < n && ki < len(keys); i++ {
+			k := keys[ki]
+			ki++
+			migrate(k, true)
+			if _, err := conn.DoS(3*time.Second, "GET", k); err != nil {
+				lost("sequential redirected requests with a 20 ms sleep at the top of the loop", k, map[string]interface{}{"request": i})
+				break
+			}
+			migrate(k, false)
+			r.Count("sequential_redirected_requests_answered", 1)
+		}
+		s.HookRelease(point)
+		r.Case("script/late-redirection/sleeps")
+	}
+}
+
+// c02LateSenders: several senders are past the "client has quit?" check when the backend connection dies and the client exits
+// (queues drained, done closed). Let go at the same instant, those that still get their request into the queue each drain it by
+// themselves - concurrently. Every one of them must come back: the connection gets its answer, and answers to what it sends next.
+func c02LateSenders(r *ev.Run) {
+	s, err := startSUT(r, false, 600000, 20)
+	if err != nil {
+		r.Internal("start sut: %v", err)
+		return
+	}
+	defer s.Close()
+	cl, err := fakecluster.New(2, 0)
+	if err != nil {
+		r.Internal("fakecluster: %v", err)
+		return
+	}
+	defer cl.Close()
+	cl.AssignContiguous()
+	cl.LogArgs = false
+	svc, err := startRedisSvc(s, cl, cl.Addrs(), RedisOpts{})
+	if err != nil || !svc.WaitRouting(1, 10*time.Second) {
+		r.Internal("service did not start: %v", err)
+		return
+	}
+	defer s.StopProc(svc.Name, 20*time.Second)
+	const point = "redis.client.send.before_enqueue"
+	keys := keysFor(cl, cl.Nodes[0], 64, "ls")
+	nconn := 12
+	reps := 80
+	if r.Tier == "thorough" {
+		reps = 500
+	}
+	if v, _ := strconv.Atoi(os.Getenv("VERIF_C02_LATE_ROUNDS")); v > 0 {
+		reps = v
+	}
+	for rep := 0; rep < reps; rep++ {
+		conns := make([]*rclient.Conn, 0, nconn)
+		for i := 0; i < nconn; i++ {
+			c, err := svc.Dial()
+			if err != nil {
+				break
+			}
+			conns = append(conns, c)
+		}
+		closeAll := func() {
+			for _, c := range conns {
+				c.Close()
+			}
+		}
+		if len(conns) < nconn {
+			closeAll()
+			if !s.Alive() {
+				r.Violation("C02:died:"+crashClass(s.CrashLine()), "the proxy died: "+s.CrashLine(), map[string]interface{}{"script": "late-senders", "log_tail": s.LogTail(3000)})
+				return
+			}
+			r.Inconclusive("late-senders:dial")
+			continue
+		}
+		// warm up: the backend client exists
+		conns[0].DoS(3*time.Second, "GET", keys[0])
+		s.HookArm(point, sutc.HookAction{Mode: "spin"})
+		for i, c := range conns {
+			c.C.Write(resp.CmdS("GET", keys[1+i]))
+		}
+		held := s.WaitParked(point, int64(nconn), 2*time.Second)
+		cl.Nodes[0].KillConns(true)
+		time.Sleep(60 * time.Millisecond) // the client notices, drains its (empty) queues and is gone
+		s.HookRelease(point)
+		if !held {
+			r.Inconclusive("late-senders:not-held")
+		}
+		unanswered := 0
+		var firstBad string
+		for i, c := range conns {
+			if _, err := c.Read(3 * time.Second); err != nil {
+				unanswered++
+				if firstBad == "" {
+					firstBad = fmt.Sprintf("connection %d: %v", i, err)
+				}
+				continue
+			}
+			if _, err := c.DoS(3*time.Second, "GET", keys[20+i]); err != nil {
+				unanswered++
+				if firstBad == "" {
+					firstBad = fmt.Sprintf("connection %d, follow-up request: %v", i, err)
+				}
+			}
+		}
+		if unanswered > 0 {
+			if !s.Alive() {
+				r.Violation("C02:died:"+crashClass(s.CrashLine()), "the proxy died: "+s.CrashLine(), map[string]interface{}{"script": "late-senders", "log_tail": s.LogTail(3000)})
+				closeAll()
+				return
+			}
+			dump, _ := s.Goroutines()
+			r.Violation("C02:lost:late-senders", fmt.Sprintf("%d of %d connections whose request was being handed to a backend client at the moment it exited were not answered (or not served afterwards)", unanswered, nconn),
+				map[string]interface{}{"round": rep, "first": firstBad, "held_at_the_pause_point": held, "stuck_in_drain": extractStacks(dump, "drainRequests", 2)})
+			closeAll()
+			return
+		}
+		closeAll()
+		if held {
+			r.Count("late_sender_rounds", 1)
+		}
+		r.Case("script/late-senders")
+	}
 }
